@@ -25,6 +25,12 @@ def fid(rel):
     return re.sub(r"[^A-Za-z0-9]", "_", rel)
 
 
+def dbname(platform):
+    """File name of a platform's compilation database; platform names may contain dots, so may the file name
+    (`x.y.json`: rejected by cbi-cov before the ensure_ext repair, see known_findings.json)."""
+    return platform + ".json"
+
+
 def gen(rng, n_tus=None, n_platforms=None, outside=False, missing=0.0, toggles=True, subdir=True,
         forced=True, computed=True, big=False, findable=False):
     dirs = ["src"] + (["src/sub"] if subdir and rng.random() < 0.7 else []) + INC_DIRS
@@ -148,7 +154,10 @@ def gen(rng, n_tus=None, n_platforms=None, outside=False, missing=0.0, toggles=T
             includes.append(rng.choice(["@abs:inc/pre.h", "pre.h" if any(s[1] == "inc" for s in search) else "@abs:inc/pre.h",
                                         "@rel:inc/pre.h"]))
         tus.append({"platform": None, "file": rel, "defines": defines, "search": search, "includes": includes})
-    plats = [f"p{i}" for i in range(n_platforms)]
+    # platform names with dashes, dots, underscores, mixed case, and one being a prefix of another
+    pool = ["p0", "gpu-2", "x.y", "A_B", "cpu", "cpu-avx512", "Z9"]
+    rng.shuffle(pool)
+    plats = pool[:n_platforms] if rng.random() < 0.6 else [f"p{i}" for i in range(n_platforms)]
     for i, tu in enumerate(tus):
         tu["platform"] = plats[i] if i < n_platforms else rng.choice(plats)
     # computed includes inside headers: replace ["include","m",'"x.h"'] by define/include/undef triple
